@@ -207,9 +207,12 @@ def intFromBytes (bo : BO) (sign : Bool) (data : List Nat) : Int :=
   if sign ∧ 2 * u ≥ 256 ^ data.length ∧ data.length > 0 then (u : Int) - (256 ^ data.length : Nat) else (u : Int)
 
 /-- `x` is representable in `n` octets (`int.to_bytes` does not raise `OverflowError`):
-unsigned `0 ≤ x < 256^n`, signed `-256^n/2 ≤ x < 256^n/2` -/
+unsigned `0 ≤ x < 256^n`, signed `-256^n/2 ≤ x < 256^n/2`; CPython quirk for `n = 0`, signed: both `0` and
+`-1` convert to `b''` -/
 def fitsInt (n : Nat) (sign : Bool) (x : Int) : Bool :=
-  if sign then decide (-((256 ^ n : Nat) : Int) ≤ 2 * x ∧ 2 * x < ((256 ^ n : Nat) : Int))
+  if sign then
+    (if n = 0 then decide (x = 0 ∨ x = -1)
+     else decide (-((256 ^ n : Nat) : Int) ≤ 2 * x ∧ 2 * x < ((256 ^ n : Nat) : Int)))
   else decide (0 ≤ x ∧ x < ((256 ^ n : Nat) : Int))
 
 /-- `x.to_bytes(n, bo, signed=sign)`; `OverflowError` when `x` does not fit -/
@@ -523,6 +526,23 @@ def envTo : List FDef → Vals → Except Err (List Nat)
       | .error e => .error e
       | .ok b => .ok (a ++ b)
 end
+
+mutual
+/-- construction of the field objects of a `STRUCT` tuple (happens once, when the definition is created):
+the only thing that can fail is `BitFieldSet.__init__` (`ProtocolError`) -/
+def constructField : FDef → Bool
+  | .bits _ len little fs => match bitsDerive len little fs with | .ok _ => true | .error _ => false
+  | .env _ _ _ _ fs => constructFields fs
+  | .seq _ _ _ item => constructFields item
+  | _ => true
+def constructFields : List FDef → Bool
+  | [] => true
+  | f :: fs => constructField f && constructFields fs
+end
+
+/-- creating the definition: `ProtocolError` if any bit-field set of it (at any depth) is ill-formed -/
+def construct (d : EnvDef) : Except Err Unit :=
+  if constructFields d.fs then .ok () else .error .protocol
 
 /-- `Envelope.from_bytes(data)`: `self.c.clear(); return self._from_bytes(self.c, data)`;
 result = (`self.c`, returned offset) -/
